@@ -11,6 +11,8 @@ real public mutator (or a cache-populating query) to a deep copy of it. After ev
 
 from __future__ import annotations
 
+import os
+
 import copy
 import math
 
@@ -21,7 +23,7 @@ LEVEL = "model_checking"
 TECHNIQUE = "explicit-state BFS over mutator/query histories on the real Model with state hashing and a fresh-model differential oracle"
 LEVEL_TEXT = (
     "Breadth-first exploration of every history of public Model mutators and cache-populating queries up to depth 2 "
-    "(quick) / 3 (thorough) from two initial states (cold and warm cache), states deduplicated by a hash of all "
+    "(quick) / 3 (thorough; 4 with VERIF_C03_DEPTH=4) from four initial states (two base models, cold and warm cache), states deduplicated by a hash of all "
     "containers, the id table and the cache contents. Every transition is executed on the real object and checked "
     "against a freshly built model, a snapshot (rejected edits) and a name-space reference. Exhaustive for the "
     "alphabet and depth; longer histories and other argument values are not explored."
@@ -766,7 +768,8 @@ PREDICATES = {}
 
 
 def run(ctx):
-    depth = 2 if ctx.tier == "quick" else 4
+    # thorough: depth 3 (about 15 minutes); VERIF_C03_DEPTH=4 goes one level deeper (about 75 minutes on 16 cores)
+    depth = 2 if ctx.tier == "quick" else int(os.environ.get("VERIF_C03_DEPTH", "3"))
     seen = {}
     frontier = []
     for init in (0, 1, 2, 3):
